@@ -176,6 +176,23 @@ def handle (op : String) (args : List String) : Option (String × String) :=
   | "i.shr_assign", [a, k] => do
     let a ← parseBigInt a; let k ← parseShift k
     pure (si (BigInt.shrAssign P a k), oShrI a k)
+  -- api-coverage: by-value shift impls.  `Shl/Shr<T> for BigUint` call `biguint_shl/shr(Cow::Owned(self), rhs)`
+  -- (same routine as the by-reference impls); `Shl<T> for BigInt` is `from_biguint(self.sign, self.data << rhs)`
+  -- and `Shr<T> for BigInt` repeats the round-down body of the by-reference impl on owned data.
+  | "u.shl_val", [a, k] => do
+    let a ← parseLimbs a; let k ← parseShift k
+    let o ← oShlU a k
+    pure (su (biguintShl a k), o)
+  | "u.shr_val", [a, k] => do
+    let a ← parseLimbs a; let k ← parseShift k
+    pure (su (biguintShr a k), oShrU a k)
+  | "i.shl_val", [a, k] => do
+    let a ← parseBigInt a; let k ← parseShift k
+    let o ← oShlI a k
+    pure (si (BigInt.shl a k), o)
+  | "i.shr_val", [a, k] => do
+    let a ← parseBigInt a; let k ← parseShift k
+    pure (si (BigInt.shr P a k), oShrI a k)
   | "u.bit", [a, k] => do
     let a ← parseLimbs a; let k ← parseIdx k
     pure (sb (bitU a k), sb (oBit (64 * a.length) (val a) k))
